@@ -123,6 +123,39 @@ def apply() -> None:
     _b.BytesLike.__contains__ = _bytes_contains
     _b.BytesLike.isspace = _bytes_isspace
 
+    # bytes(symbolic memoryview) realises in CrossHair's _bytes; keep it symbolic.  (Body of CrossHair's own
+    # _bytes repeated: a patch may only reach the real builtin from its own code object.)
+    def _bytes2(*a):
+        with NoTracing():
+            if len(a) != 1:
+                return bytes(*a)  # type: ignore
+            (source,) = a
+            if isinstance(source, SMV):
+                # snapshot (the view aliases a mutable buffer)
+                return _b.SymbolicBytes(list(_b.tracing_iter(source._sliced)))
+            if isinstance(source, _b.SymbolicByteArray):
+                return _b.SymbolicBytes(source.inner)
+            elif isinstance(source, _b.SymbolicBytes):
+                return _b.SymbolicBytes(source.inner)
+            if _b.is_iterable(source):
+                source = list(_b.tracing_iter(source))
+                if any(isinstance(i, _b.SymbolicIntable) for i in source):
+                    return _b.SymbolicBytes(source)
+            return bytes(source)
+
+    _REG[bytes] = _bytes2
+
+    # map() is a C iterator: the mapped function is then called outside the tracer and symbolic arguments get
+    # realised (easynetwork's iter_bytes = map(int.to_bytes, buffer)).  Model: the equivalent lazy generator.
+    def _map2(func, *iterables):
+        if len(iterables) == 0:
+            raise TypeError("map() must have at least two arguments.")
+        if len(iterables) == 1:
+            return (func(x) for x in iterables[0])
+        return (func(*xs) for xs in zip(*iterables))
+
+    _REG[map] = _map2
+
     # bytearray(n:int) -> symbolic-capable zero filled buffer.  (Body of CrossHair's own _bytearray is
     # repeated here: a patch may only reach the real builtin from its *own* code object.)
     def _bytearray2(*a):
